@@ -169,18 +169,42 @@ Print Assumptions C08_mux_fail_all_once.
 (* Over a whole history: no call gets two messages; a call in _tag_map has got none; a call that was given a tag, is
    no longer in _tag_map and was not dropped from the send queue after its deadline got exactly one (a reply or the
    shutdown's ClientError); a closed transport has an empty _tag_map - so every request in flight when the connection
-   failed was failed exactly once. *)
+   failed was failed exactly once.  A request handed over while Open() is still in progress waits for the open result
+   ([waiting]); it has got nothing yet, and once it is neither waiting nor tagged it got exactly one message ("Sink not
+   open" when the open failed). *)
 Theorem C08_mux_exactly_once : forall t0 ls s e c,
   Mux.run (Mux.init t0) ls = Some (s, e) ->
   (MuxP.nposts c e <= 1)%nat /\
   (In c (tagmap s) -> MuxP.nposts c e = O) /\
+  (In c (waiting s) -> MuxP.nposts c e = O) /\
   (MuxP.acc c e = true -> ~ In c (tagmap s) -> rel c e = false -> MuxP.nposts c e = 1%nat) /\
+  (mem_z c (Mux.seen s) = true -> ~ In c (waiting s) -> MuxP.acc c e = false -> MuxP.nposts c e = 1%nat) /\
   (Mux.cst s = Mux.Closed -> tagmap s = []).
 Proof.
-  intros t0 ls s e c R. destruct (mux_once t0 ls s e c R) as (H1 & H2 & H3 & H4).
-  repeat split; try assumption. intros X. apply H2. assumption.
+  intros t0 ls s e c R. destruct (mux_once t0 ls s e c R) as (H1 & H2 & H3 & H4 & H5 & H6).
+  repeat split; try assumption; intros X; [apply H2 | apply H3]; assumption.
 Qed.
 Print Assumptions C08_mux_exactly_once.
+
+(* Requests issued between the start of Open() and its completion: the caller blocks; whenever the transport is no
+   longer Idle it can resume, and what it gets is decided then - exactly one "Sink not open" on a transport whose open
+   failed (refused connect, peer hanging up or silent during the opening ping, Close()), a tag and a queued frame on an
+   open one; while the transport is Idle with callers waiting an Open() is in progress, i.e. they are not forgotten. *)
+Theorem C08_mux_blocked_request : forall t0 ls s e0 c,
+  Mux.run (Mux.init t0) ls = Some (s, e0) -> In c (waiting s) ->
+  MuxP.nposts c e0 = O /\
+  (Mux.cst s = Mux.Idle -> opn s <> None) /\
+  (Mux.cst s <> Mux.Idle ->
+     exists s' e, Mux.step s (MResumeReq c) = Some (s', e) /\ ~ In c (waiting s') /\
+       (Mux.cst s = Mux.Closed -> e = [Mux.Post c KNotOpen] /\ tagmap s' = tagmap s) /\
+       (Mux.cst s = Mux.Open -> e = [Mux.Accepted c] /\ In c (tagmap s'))).
+Proof.
+  intros t0 ls s e0 c R W. pose proof (MuxP.run_inv ls _ _ _ (MuxP.inv_init t0) R) as I.
+  destruct (mux_once t0 ls s e0 c R) as (_ & _ & H3 & _). split; [apply H3; assumption|]. split.
+  - intros C. apply waiting_idle_opening; try assumption. intros X. rewrite X in W. destruct W.
+  - intros C. apply blocked_resumes; assumption.
+Qed.
+Print Assumptions C08_mux_blocked_request.
 
 (* A ping queued at time t (PingSent t in the history) that is still unanswered: its helper is due at exactly
    t + 5 s, the clock cannot pass that instant, before it the time-out cannot fire, at it the time-out fires and the
@@ -261,6 +285,16 @@ Print Assumptions C08_mux_fault_once.
 Example C08_mux_race_history_closed :
   exists s e, Mux.run (Mux.init 0) race_history = Some (s, e) /\ Mux.cst s = Mux.Closed /\ Mux.nfaults e = 1 /\ opn s = None.
 Proof. eexists. eexists. split; [vm_compute; reflexivity|]. cbn. repeat split. Qed.
+
+(* non-vacuity: a request issued while the connect is in progress; the connect is refused; the caller resumes and is
+   refused exactly once *)
+Example C08_mux_blocked_example :
+  Mux.run (Mux.init 0) [MOpen; MOStart; MReq 1; MOConn false; MResumeReq 1] <> None /\
+  (forall s e, Mux.run (Mux.init 0) [MOpen; MOStart; MReq 1; MOConn false; MResumeReq 1] = Some (s, e) ->
+     Mux.posts e = [(1, KNotOpen)] /\ Mux.nfaults e = 1 /\ waiting s = []).
+Proof.
+  split; [vm_compute; discriminate|]. intros s e H. vm_compute in H. inversion H; subst. cbn. repeat split.
+Qed.
 
 (* non-vacuity: two calls, one written and one still queued behind a failing write, are both failed once *)
 Example C08_mux_example :
